@@ -165,6 +165,9 @@ class Inliner:
                                                                for d in st.decorator_list):
                     self.methods.setdefault(st.name, []).append(st)
         self.functions = {st.name: st for st in mod.tree.body if isinstance(st, ast.FunctionDef)}
+        self.classes = {st.name: st for st in mod.tree.body if isinstance(st, ast.ClassDef)}
+        self.siblings: Dict[str, ast.AST] = {}
+        self.unread: List[str] = []       # private helpers / context managers on the way that could not be read as code
 
     def _callee(self, call: ast.Call):
         f = call.func
@@ -173,6 +176,8 @@ class Inliner:
             return self.methods[f.attr][0], f.value
         if isinstance(f, ast.Name) and f.id.startswith("_") and f.id not in ANCHORS and f.id in self.functions:
             return self.functions[f.id], None
+        if isinstance(f, ast.Name) and f.id in self.siblings:
+            return self.siblings[f.id], None       # a local closure of the enclosing function, called directly
         return None, None
 
     def _expand(self, call: ast.Call, target, depth):
@@ -273,11 +278,131 @@ class Inliner:
             visit_AsyncFunctionDef = visit_Lambda = visit_FunctionDef
         return T().visit(node)
 
+    def _with_cm(self, st, depth):
+        """`with _Private(args): body`  ->  <__enter__ body>; try: body; finally: <__exit__ body>   (None when not applicable)"""
+        if len(st.items) != 1 or st.items[0].optional_vars is not None:
+            return None
+        ce = st.items[0].context_expr
+        if not (isinstance(ce, ast.Call) and isinstance(ce.func, ast.Name) and ce.func.id in self.classes and ce.func.id.startswith("_")):
+            return None
+        cls = self.classes[ce.func.id]
+        ms = {m.name: m for m in cls.body if isinstance(m, ast.FunctionDef)}
+        if "__enter__" not in ms or "__exit__" not in ms or ce.keywords or any(isinstance(a, ast.Starred) or not _simple_expr(a) for a in ce.args):
+            self.unread.append("with " + ce.func.id)
+            return None
+        fields: Dict[str, ast.AST] = {}
+        if "__init__" in ms:
+            ips = [a.arg for a in ms["__init__"].args.args][1:]
+            if len(ips) != len(ce.args):
+                self.unread.append("with " + ce.func.id)
+                return None
+            amap = dict(zip(ips, ce.args))
+            for x in ms["__init__"].body:
+                if isinstance(x, ast.Expr) and isinstance(x.value, ast.Constant):
+                    continue
+                tv = targets_values(x)
+                if len(tv) == 1 and attr_of(tv[0][0], tv[0][0].attr if isinstance(tv[0][0], ast.Attribute) else "", "self") and isinstance(tv[0][1], ast.Name) \
+                        and tv[0][1].id in amap:
+                    fields[tv[0][0].attr] = amap[tv[0][1].id]
+                else:
+                    self.unread.append("with " + ce.func.id)
+                    return None
+        elif ce.args:
+            self.unread.append("with " + ce.func.id)
+            return None
+
+        class F(ast.NodeTransformer):
+            def visit_Attribute(self, n):
+                self.generic_visit(n)
+                if isinstance(n.value, ast.Name) and n.value.id == "self" and n.attr in fields and isinstance(n.ctx, ast.Load):
+                    return ast.copy_location(clone(fields[n.attr]), n)
+                return n
+
+        def body_of(m):
+            b = [x for x in m.body if not (isinstance(x, ast.Expr) and isinstance(x.value, ast.Constant))]
+            b = clone(b)
+            for x in b:
+                for y in ast.walk(x):
+                    if isinstance(y, ast.Return) and y.value is not None and not (isinstance(y.value, ast.Constant) and not y.value.value):
+                        raise _NoInline("context manager returns a value")
+                    if isinstance(y, ast.Name) and y.id == "self" and not (isinstance(getattr(y, "_p", None), ast.Attribute)):
+                        pass
+            b = [x for x in b if not isinstance(x, ast.Return)]
+            b = [F().visit(x) for x in b]
+            for x in b:
+                if any(isinstance(y, ast.Name) and y.id == "self" for y in ast.walk(x)):
+                    raise _NoInline("context manager uses self beyond its fields")
+                for y in ast.walk(x):
+                    ast.copy_location(y, st) if not hasattr(y, "lineno") else None
+                    if hasattr(y, "lineno"):
+                        y.lineno = st.lineno
+            return b
+        try:
+            enter, exit_ = body_of(ms["__enter__"]), body_of(ms["__exit__"])
+        except _NoInline:
+            self.unread.append("with " + ce.func.id)
+            return None
+        self.inlined.append(ce.func.id)
+        tr = ast.copy_location(ast.Try(body=self._stmts(st.body, depth), handlers=[], orelse=[], finalbody=exit_ or [ast.Pass()]), st)
+        res = enter + [tr]
+        for x in res:
+            ast.fix_missing_locations(x)
+        return res
+
+    def _sink_selection(self, stmts):
+        """`if c: a, b = X, Y  else: a, b = X2, Y2` followed by a statement that is the only reader of a, b
+        ->  the statement duplicated into both branches with the selected values substituted (selection through a tuple)"""
+        out = list(stmts)
+        i = 0
+        while i + 1 < len(out):
+            st, nxt = out[i], out[i + 1]
+            if isinstance(st, ast.If) and st.orelse and st.body and not isinstance(nxt, (ast.If, ast.While, ast.For, ast.Try, ast.With, ast.FunctionDef)):
+                def sel(block):
+                    last = block[-1]
+                    tv = targets_values(last) if isinstance(last, (ast.Assign, ast.AnnAssign)) else []
+                    if tv and all(isinstance(t, ast.Name) and v is not None for t, v in tv):
+                        return {t.id: v for t, v in tv}
+                    return None
+                a, b = sel(st.body), sel(st.orelse)
+                if a and b and set(a) == set(b):
+                    names = set(a)
+                    reads_next = {x.id for x in ast.walk(nxt) if isinstance(x, ast.Name) and isinstance(x.ctx, ast.Load)}
+                    stores_next = {x.id for x in ast.walk(nxt) if isinstance(x, ast.Name) and isinstance(x.ctx, ast.Store)}
+                    only_here = all(self.loads.get(n, 0) == sum(1 for x in ast.walk(nxt) if isinstance(x, ast.Name) and x.id == n and isinstance(x.ctx, ast.Load))
+                                    and self.stores.get(n, 0) == 2 for n in names)
+                    # the selected values must not be changed by the assignment itself (simultaneous semantics) nor by `nxt` before use
+                    safe = all(not ({y.id for v in m.values() for y in ast.walk(v) if isinstance(y, ast.Name)} & names) for m in (a, b))
+                    if names <= reads_next and only_here and safe and not (names & stores_next):
+                        def branch(block, m):
+                            return clone(block[:-1]) + [_Subst({k: v for k, v in m.items()}, {}).visit(clone(nxt))]
+                        new_if = ast.copy_location(ast.If(test=st.test, body=branch(st.body, a), orelse=branch(st.orelse, b)), st)
+                        ast.fix_missing_locations(new_if)
+                        out[i:i + 2] = [new_if]
+                        continue
+            i += 1
+        return out
+
     def _stmts(self, stmts, depth):
         out = []
+        stmts = self._sink_selection(stmts) if depth == 0 else stmts
         for st in stmts:
             if isinstance(st, (ast.FunctionDef, ast.AsyncFunctionDef, ast.ClassDef)):
                 out.append(st)
+                continue
+            if isinstance(st, ast.With):
+                r = self._with_cm(st, depth)
+                if r is not None:
+                    out.extend(r)
+                    continue
+            # `targets = X if c else Y`  ->  if c: targets = X  else: targets = Y   (selection by conditional expression)
+            if isinstance(st, (ast.Assign, ast.AnnAssign)) and isinstance(st.value, ast.IfExp) and not isinstance(getattr(st, "target", None), ast.Attribute):
+                def branch(v):
+                    n = clone(st)
+                    n.value = v
+                    return n
+                iff = ast.copy_location(ast.If(test=st.value.test, body=[branch(st.value.body)], orelse=[branch(st.value.orelse)]), st)
+                ast.fix_missing_locations(iff)
+                out.extend(self._stmts([iff], depth))
                 continue
             try:
                 if isinstance(st, ast.Expr) and isinstance(st.value, ast.Call):
@@ -287,8 +412,10 @@ class Inliner:
                         and self._pure_expr(st.value, self.max_depth) is None and self._callee(st.value)[0] is not None:
                     out.extend(self._expand(st.value, st.targets[0], depth))
                     continue
-            except _NoInline:
-                pass
+            except _NoInline as ex:
+                c_ = st.value if isinstance(st, (ast.Expr, ast.Assign)) else None
+                if isinstance(c_, ast.Call) and self._callee(c_)[0] is not None and "not a private helper" not in str(ex):
+                    self.unread.append(src(c_.func))
             for fld in ("body", "orelse", "finalbody"):
                 if isinstance(getattr(st, fld, None), list) and getattr(st, fld) and isinstance(getattr(st, fld)[0], ast.stmt):
                     setattr(st, fld, self._stmts(getattr(st, fld), depth))
@@ -303,9 +430,78 @@ class Inliner:
             out.append(st)
         return out
 
+    def _cell_classes(self):
+        """module-private state classes that are nothing but a record of constant-initialised fields:
+        {class name: [(field, initial constant expr), ...]} - read as the anonymous list cell `[c0, c1, ...]`"""
+        out = {}
+        for name, cls in self.classes.items():
+            if not name.startswith("_"):
+                continue
+            ms = [m for m in cls.body if isinstance(m, ast.FunctionDef)]
+            if [m.name for m in ms] != ["__init__"] or len(ms[0].args.args) != 1 or cls.bases:
+                continue
+            fields = []
+            ok = True
+            for st in ms[0].body:
+                if isinstance(st, ast.Expr) and isinstance(st.value, ast.Constant):
+                    continue
+                tv = targets_values(st)
+                if len(tv) == 1 and isinstance(tv[0][0], ast.Attribute) and is_name(tv[0][0].value, "self") and isinstance(tv[0][1], ast.Constant):
+                    fields.append((tv[0][0].attr, tv[0][1]))
+                else:
+                    ok = False
+            if ok and fields:
+                out[name] = fields
+        return out
+
+    def _cells(self, f):
+        """`w = _Cell()` / parameter `w: _Cell`  +  `w.field`   ->   `w = [c0, c1]`  +  `w[i]`"""
+        cells = self._cell_classes()
+        if not cells:
+            return f
+        recv: Dict[str, str] = {}
+        a = f.args
+        for p_ in list(a.posonlyargs) + list(a.args):
+            ann = p_.annotation
+            nm = ann.value if isinstance(ann, ast.Constant) and isinstance(ann.value, str) else (dotted(ann) if ann is not None else None)
+            if nm in cells:
+                recv[p_.arg] = nm
+        for st in ast.walk(f):
+            if isinstance(st, (ast.Assign, ast.AnnAssign)):
+                for t, v in targets_values(st):
+                    if isinstance(t, ast.Name) and isinstance(v, ast.Call) and isinstance(v.func, ast.Name) and v.func.id in cells and not v.args and not v.keywords:
+                        recv[t.id] = v.func.id
+        if not recv:
+            return f
+
+        class T(ast.NodeTransformer):
+            def visit_Attribute(self, n):
+                self.generic_visit(n)
+                if isinstance(n.value, ast.Name) and n.value.id in recv:
+                    names = [x for x, _ in cells[recv[n.value.id]]]
+                    if n.attr in names:
+                        return ast.copy_location(ast.Subscript(value=n.value, slice=ast.Constant(value=names.index(n.attr)), ctx=n.ctx), n)
+                return n
+
+            def visit_Call(self, n):
+                self.generic_visit(n)
+                if isinstance(n.func, ast.Name) and n.func.id in cells and not n.args and not n.keywords:
+                    return ast.copy_location(ast.List(elts=[clone(c) for _, c in cells[n.func.id]], ctx=ast.Load()), n)
+                return n
+        g = T().visit(f)
+        ast.fix_missing_locations(g)
+        self.inlined.extend(sorted(set(recv.values())))
+        return g
+
     def function(self, func):
         f = clone(func)
+        self.loads, self.stores = {}, {}
+        for x in ast.walk(f):
+            if isinstance(x, ast.Name):
+                d = self.loads if isinstance(x.ctx, ast.Load) else self.stores
+                d[x.id] = d.get(x.id, 0) + 1
         f.body = self._stmts(f.body, 0)
+        f = self._cells(f)
         ast.fix_missing_locations(f)
         return f
 
@@ -317,11 +513,24 @@ def inlined_func(ctx, rel: str, qual: str):
     if key not in cache:
         f = real_func(ctx, rel, qual)
         inl = Inliner(ctx.mod(rel))
+        if "." in qual:
+            parent = ctx.mod(rel).find(qual.rsplit(".", 1)[0])
+            if isinstance(parent, (ast.FunctionDef, ast.AsyncFunctionDef)):
+                inl.siblings = {st.name: st for st in parent.body if isinstance(st, ast.FunctionDef) and st is not f}
         g = inl.function(f)
-        cache[key] = g if inl.inlined else f      # nothing to inline: keep the original nodes (identity with the call graph's sites)
+        changed = bool(inl.inlined) or src(g) != src(f)
+        cache[key] = g if changed else f      # nothing rewritten: keep the original nodes (identity with the call graph's sites)
+        ctx.__dict__.setdefault("_unread", {})[key] = sorted(set(inl.unread))
         if inl.inlined:
             ctx.note(f"{qual}: private helpers read as if inlined: {', '.join(sorted(set(inl.inlined)))}")
     return cache[key]
+
+
+def unread_in(ctx, rel: str, qual: str) -> List[str]:
+    """constructs of the function that the normaliser could not read as code (un-inlinable private helper, unknown context manager):
+    while this is non-empty, "X is absent" is not a verdict"""
+    inlined_func(ctx, rel, qual)
+    return ctx.__dict__.get("_unread", {}).get((rel, qual), [])
 
 
 def root_callers(mod, qual: str, _seen=None) -> Set[str]:
@@ -811,6 +1020,9 @@ class RunShape:
     def __init__(self, ctx):
         self.ctx = ctx
         self.f = inlined_func(ctx, DEFER, "Deferred._runCallbacks")
+        self.unread = unread_in(ctx, DEFER, "Deferred._runCallbacks")
+        if self.unread:
+            raise AnalysisError("Deferred._runCallbacks is not fully read (" + ", ".join(self.unread) + "): no absence-based verdict is given for it")
         self.g = ctx.cfg(self.f, exception_is_all=False)
         self.q = Q + "Deferred._runCallbacks"
         g = self.g
@@ -1068,6 +1280,7 @@ class ChainWalk:
                 phys, env, hand, fresh = self._stmt(node, nid, phys, env, hand, fresh)
                 if nid in self.S.regs:
                     chained = True
+            env["#m"] = fresh
             labels = None
             if node.kind == "test":
                 if nid in getattr(self, "inner_tests", ()):
@@ -1110,9 +1323,20 @@ class ChainWalk:
                 dq.append((b, new, fresh))
         return results
 
+    def _length(self, phys, fresh):
+        """symbolic length of the stack: exact when the base is known, else relative to the unknown base (materialised elements
+        were part of that base, so they do not change the true length)"""
+        if phys and phys[0] == "…":
+            return ("len", len(phys) - 1 - fresh)
+        if "?" in phys:
+            return "?"
+        return ("len!", len(phys))
+
     def _val(self, v, phys, env, fresh, nid):
         """(value, phys, fresh) of an expression assigned to a tracked local"""
         X = self.stack_var
+        if isinstance(v, ast.Call) and dotted(v.func) == "len" and len(v.args) == 1 and is_name(v.args[0], X):
+            return self._length(phys, fresh), phys, fresh
         if isinstance(v, ast.Constant) and (v.value is None or isinstance(v.value, bool)):
             return v.value, phys, fresh
         if isinstance(v, ast.Name):
@@ -1174,7 +1398,7 @@ class ChainWalk:
                     env.pop(t.id, None)
                     continue
                 val, phys, fresh = self._val(v, phys, env, fresh, nid)
-                if val == "?" and t.id != self.cur:
+                if (not isinstance(val, tuple)) and val == "?" and t.id != self.cur:
                     env.pop(t.id, None)
                 else:
                     env[t.id] = val
@@ -1198,6 +1422,8 @@ class ChainWalk:
         X = self.stack_var
 
         def truth(val):
+            if isinstance(val, tuple):
+                return None
             if val is None or val is False:
                 return False
             if val is True or (isinstance(val, str) and val != "?"):
@@ -1227,6 +1453,18 @@ class ChainWalk:
                 return {"T" if isnone else "F": phys}, phys, fresh
             if isinstance(e.ops[0], (ast.IsNot, ast.NotEq)):
                 return {"F" if isnone else "T": phys}, phys, fresh
+        if isinstance(e, ast.Compare) and len(e.ops) == 1 and type(e.ops[0]) in (ast.Lt, ast.Gt, ast.LtE, ast.GtE, ast.Eq, ast.NotEq):
+            def lenval(x):
+                if isinstance(x, ast.Name) and isinstance(env.get(x.id), tuple):
+                    return env[x.id]
+                if isinstance(x, ast.Call) and dotted(x.func) == "len" and len(x.args) == 1 and is_name(x.args[0], X):
+                    return self._length(phys, fresh)
+                return None
+            a, b = lenval(e.left), lenval(e.comparators[0])
+            if isinstance(a, tuple) and isinstance(b, tuple) and a[0] == b[0]:
+                import operator
+                op = {ast.Lt: operator.lt, ast.Gt: operator.gt, ast.LtE: operator.le, ast.GtE: operator.ge, ast.Eq: operator.eq, ast.NotEq: operator.ne}[type(e.ops[0])]
+                return {"T" if op(a[1], b[1]) else "F": phys}, phys, fresh
         if isinstance(e, ast.Call) and dotted(e.func) == "len" and len(e.args) == 1 and is_name(e.args[0], X):
             return self._test(e.args[0], phys, env, fresh)
         if isinstance(e, ast.Compare) and len(e.ops) == 1 and isinstance(e.left, ast.Call) and dotted(e.left.func) == "len" and e.left.args \
